@@ -1,7 +1,7 @@
 """C13 — no named semaphore outlives its process tree."""
 from ..ech import H
 
-LEVEL = "other"
+LEVEL = "model_checking"
 EXPLANATION = (
     "Composition executed symbolically (CrossHair/z3): the real SemLock.__init__ / _cleanup / __getstate__ / "
     "__setstate__ run against a fake kernel semaphore namespace (C _SemLock raising FileExistsError a symbolic "
@@ -18,7 +18,8 @@ M = "lokyverif.harness.c13_semlock"
 
 def units(tier):
     big = tier == "thorough"
-    return [H("C13", M, "check_kill_points", 400, ["loky.backend.synchronize:SemLock.__init__", "loky.backend.synchronize:SemLock._cleanup",
+    return [("lokyverif.ets.units_exec", "slice_unit", dict(prop="C13", name="slice.tracker_race", builder="x9_tracker_race", K=40, timeout_s=1200)),
+            H("C13", M, "check_kill_points", 400, ["loky.backend.synchronize:SemLock.__init__", "loky.backend.synchronize:SemLock._cleanup",
                                                    "loky.backend.resource_tracker:main"],
               "owner SIGKILLed after 2..4 of the externally visible effects (create, REGISTER, unlink, UNREGISTER) or never; early user unlink or not"),
             H("C13", M, "check_copy_after_release", 400, ["loky.backend.synchronize:SemLock.__setstate__", "loky.backend.synchronize:SemLock.__getstate__",
